@@ -52,7 +52,7 @@ PROPS = {
         exhaustive=True,
     ),
 }
-for pid, profs in {"C01": ["acl"], "C02": ["seq"], "C06": ["audit", "acl"], "C09": ["acl", "seq"], "C03": ["persist"], "C04": ["fault"]}.items():
+for pid, profs in {"C01": ["acl", "audit"], "C02": ["seq", "fault"], "C06": ["audit", "acl"], "C09": ["acl", "seq"], "C03": ["persist"], "C04": ["fault"]}.items():
     PROPS[pid] = dict(
         shards=db_shards(profs),
         trusted=BASE_TRUST + ["tink AEAD/keyset and encoding/json (the harness decrypts the database file itself with the documented schema-v1 layout)"],
@@ -307,3 +307,11 @@ PROPS["C18"]["rule"] = PROPS["C18"]["rule"] + "; (iii) the sequential store fami
 _c18b = PROPS["C18"]["shards"]
 PROPS["C18"]["shards"] = lambda tier, seed, search=False: _c18b(tier, seed, search) + http_shards(tier, seed, search)[:2]
 PROPS["C18"]["rule"] = PROPS["C18"]["rule"] + "; (iv) the http family: every 200 body and the real client's put request body are read back by the model's wire readers"
+
+_c18c = PROPS["C18"]["shards"]
+PROPS["C18"]["shards"] = lambda tier, seed, search=False: _c18c(tier, seed, search) + db_shards(["fault"])(tier, seed, search)[:2]
+PROPS["C18"]["rule"] = PROPS["C18"]["rule"] + "; (v) DB histories with failing saves: the bytes bound to an acknowledged (name, version) never change"
+
+_c06c = PROPS["C06"]["shards"]
+PROPS["C06"]["shards"] = lambda tier, seed, search=False: _c06c(tier, seed, search) + http_shards(tier, seed, search)[:3]
+PROPS["C06"]["rule"] = PROPS["C06"]["rule"] + "; plus the http family (an accepted request leaves exactly the records the specification requires)"
